@@ -5,6 +5,7 @@ https://github.com/sutoiku/formula.js/blob/master/lib/statistical.js
 """
 import math
 import statistics
+from fractions import Fraction
 from . import dispatcher
 from . import error
 from . import utils
@@ -19,9 +20,12 @@ def AVERAGE(*args):
 
 @dispatcher.register_for('AVEDEV')
 def AVEDEV(*args):
-    args = utils.flatten(args)
-    average = AVERAGE(*args)
-    return sum(abs(arg - average) for arg in utils.iflatten(args)) / len(args)
+    # in exact arithmetic, as the statistics module computes its means: deviations from a mean that
+    # was rounded to a double first lose most of their digits when the numbers are large compared
+    # with their spread (AVEDEV(1000000001,1000000002,1000000004) was right to 8 digits only)
+    numbers = [Fraction(x) for x in utils.inumbers(args, try_parse=True)]
+    average = sum(numbers) / len(numbers)
+    return float(sum(abs(x - average) for x in numbers) / len(numbers))
 
 
 @dispatcher.register_for('AVERAGEA')
